@@ -354,7 +354,7 @@ func runHarness(ld *Loaded, h *Harness, tier string, seed int) *HarnessResult {
 	}
 	cfg := symex.Config{Stubs: h.Stubs, Havoc: h.Havoc, MaxAlloc: h.Int("maxalloc", tier, 64), LoopMax: h.Int("loopmax", tier, 0),
 		MaxPaths: h.Int("maxpaths", tier, 0), MaxSteps: h.Int("maxsteps", tier, 0), InitPkgs: h.InitPkgs, NoInterp: map[string]bool{},
-		WitnessEvery: h.Int("witness", tier, 1), TrackAccess: h.Flags["trackaccess"], Params: h.ParamsFor(tier)}
+		WitnessEvery: h.Int("witness", tier, 1), TrackAccess: h.Flags["lockset"], Params: h.ParamsFor(tier)}
 	if tier == "thorough" {
 		cfg.RecordMax = 300
 	}
@@ -384,6 +384,9 @@ func runHarness(ld *Loaded, h *Harness, tier string, seed int) *HarnessResult {
 	}
 	if res.NPaths == 0 {
 		r.Err = appendErr(r.Err, "vacuous: no path completed")
+	}
+	if h.Flags["lockset"] {
+		locksetViolations(r, tier)
 	}
 	for _, v := range res.Violations {
 		vec := vectorFromModel(v.Inputs, v.Model, tier)
